@@ -217,10 +217,40 @@ def fam_named(ctx):
     ctx.outcome('ok')
 
 
+def fam_named_reuse(ctx):
+    """zero() and the unit vectors stay what their names say after vectors obtained from them were used and modified: a component
+    assignment on a returned vector, and a Line built from zero() / x_unit_vector() that is moved (Line.move shifts its support
+    vector in place), must not change what the next call returns"""
+    a = _vec3(ctx, 'a', (-8, 8))
+    names = (('zero', (0, 0, 0)), ('x_unit_vector', (1, 0, 0)), ('y_unit_vector', (0, 1, 0)), ('z_unit_vector', (0, 0, 1)))
+
+    def check(when):
+        for nm, exp in names:
+            getters = [getattr(Vector, nm)] + ([getattr(G, nm)] if hasattr(G, nm) else [])
+            for g in getters:
+                v = g()
+                ctx.require(all(isinstance(c, (int, float)) and not isinstance(c, bool) for c in (v[0], v[1], v[2]))
+                            and (v[0], v[1], v[2]) == exp, 'C18:%s() is wrong %s' % (nm, when))
+    for i in range(3):
+        for nm, exp in names:
+            v = getattr(Vector, nm)()
+            v[i] = a[i]
+        check('after a component of an earlier result was assigned')
+    st, res = call(lambda: Line(Vector.zero(), G.x_unit_vector()).move(Vector(*a)))
+    if st == 'raise':
+        ctx.fail('C18:moving Line(zero(), x_unit_vector()) raises %s' % exc_sig(res), repr(res))
+    check('after a Line built from zero() / x_unit_vector() was moved')
+    s = Vector(*a) + Vector.zero()
+    for i in range(3):
+        ctx.require(_same(ctx, s[i], _raw(ctx, a[i])), 'C18:v + zero() != v after earlier results were modified')
+    ctx.outcome('ok')
+
+
 def families(tier, seed):
     fams = [
         Family('ops/unbounded', fam_ops, ((None, None),), must_reach=('ok',)),
         Family('named', fam_named, (), must_reach=('ok',)),
+        Family('named-reuse', fam_named_reuse, (), must_reach=('ok',)),
         Family('length/box', fam_norm, ((-1000, 1000), 'length'), must_reach=('length',)),
         Family('normalized/box', fam_norm, ((-8, 8), 'normalized'), must_reach=('unit',)),
         Family('unit/box', fam_norm, ((-8, 8), 'unit'), must_reach=('unit',)),
